@@ -151,8 +151,13 @@ def run(ctx: Ctx):
                 okw = ex.ev(small[0].value).is_zero() and ex.ev(big[0].value) == Rat.const(1) / (Rat.var("k") - Rat.const(1))
             except Unsupported:
                 okw = False
-    ctx.check(okw, "R-C12-1", f, wb[0] if wb else O, "pair weight base = 1/(k-1) with k = number of real units of the unitary alignment (0 when k < 2)",
-              bad_detail="weight base is not 1/(k-1) (k = nb_units, 0 below 2 units)", key="weight-base")
+    if okw or (len(wb) == 1 and wname is not None):
+        ctx.check(okw, "R-C12-1", f, wb[0] if wb else O, "pair weight base = 1/(k-1) with k = number of real units of the unitary alignment (0 when k < 2)",
+                  bad_detail="weight base is not 1/(k-1) (k = nb_units, 0 below 2 units)", key="weight-base")
+    else:
+        ctx.undecided("R-C12-1", f, O, "the per-unitary-alignment weight base is not computed as `k = nb_units; if k < 2: w = 0 else: w = 1/(k-1)`: "
+                      "shape not recognised (not a verdict)", key="weight-base")
+        return
     # pair domain
     L1 = [s for s in O.body if isinstance(s, ast.For)]
     if len(L1) != 1:
@@ -181,10 +186,11 @@ def run(ctx: Ctx):
             u1, u2 = norm(a.elts[1]), norm(b.elts[1])
             dom_ok = True
             pair_body = P1.body
-    ctx.check(dom_ok, "R-C12-1", f, P1, "every unordered pair of slots of the unitary alignment is visited once",
-              bad_detail="pair loops do not enumerate each unordered pair of slots exactly once", key="pair-domain")
     if not dom_ok:
+        ctx.undecided("R-C12-1", f, P1, "pair loops are neither `enumerate(n_tuple)` x `n_tuple[i+1:]` nor `combinations(n_tuple, 2)`: shape not recognised (not a verdict)",
+                      key="pair-domain")
         return
+    ctx.ok("R-C12-1", f, P1, "every unordered pair of slots of the unitary alignment is visited once", key="pair-domain")
     # accumulators: names returned as disorder / weight
     rets = [r for r in body if isinstance(r, ast.Return)]
     final = rets[-1] if rets else None
